@@ -75,13 +75,20 @@ def locked(path):
             fcntl.flock(f, fcntl.LOCK_UN)
 
 
-def prune_cache(keep=24):
+def prune_cache(keep=40, grace_s=4 * 3600):
+    """Drop old build directories - never one used in the last hours: a long exploration keeps its graphs in
+    the directory of its build while other checks (other trees) build theirs."""
     if not os.path.isdir(CACHE):
         return
-    ds = [os.path.join(CACHE, d) for d in os.listdir(CACHE) if os.path.isdir(os.path.join(CACHE, d)) and not d.startswith("tlc") and d != "locks"]
+    ds = [os.path.join(CACHE, d) for d in os.listdir(CACHE) if os.path.isdir(os.path.join(CACHE, d)) and not d.startswith("tlc") and d not in ("locks", "proofs")]
     ds.sort(key=os.path.getmtime, reverse=True)
+    now = time.time()
     for d in ds[keep:]:
-        shutil.rmtree(d, ignore_errors=True)
+        try:
+            if now - os.path.getmtime(d) > grace_s:
+                shutil.rmtree(d, ignore_errors=True)
+        except OSError:
+            pass
 
 
 def build(name, groups, harness_srcs, flags=(), sanitize=True, opt="-O1", cxx="g++", extra_link=(), force_include=None):
